@@ -62,14 +62,25 @@ def execute(scn: Dict[str, Any]):
     raise ValueError("unknown engine %r" % eng)
 
 
+def pid_has_own_hang_rule(pid: str) -> bool:
+    return pid in ("C09", "C07")
+
+
 def run_scenario(prop: Prop, scn: Dict[str, Any]):
     run = execute(scn)
     if getattr(run, "cap", None):
         raise RuntimeError("run cap exceeded: %s" % run.cap)
     viols, counters = prop.judge(scn, run)
-    if getattr(run, "deadlock", None) and "silent" not in json.dumps(scn.get("steps", [])):
-        # bounded liveness: the peer answered (or closed) every time, no fault is pending, yet the code under test
-        # waits forever
+    fault = getattr(getattr(run, "sim", None), "harness_fault", None)
+    if fault:
+        raise RuntimeError("simulation seam bypassed: %s" % fault)
+    steps_text = json.dumps(scn.get("steps", []))
+    reply_faults = any(('"mode": "%s"' % m) in steps_text for m in
+                       ("truncate", "segment", "garbage", "corrupt", "eof", "rst", "silent", "extra"))
+    if getattr(run, "deadlock", None) and not reply_faults and not pid_has_own_hang_rule(prop.pid):
+        # bounded liveness in the absence of reply faults: the peer answered every frame completely, nothing is
+        # pending, yet the code under test waits forever.  (Under truncated or garbled replies only C09 and C16
+        # speak about termination; they have their own clause.)
         key = "%s/hang" % prop.pid
         if not any(k.endswith("/hang") or "/hang/" in k for k, _ in viols):
             viols = list(viols) + [(key, "the event loop went idle forever with an operation still pending: %s" % run.deadlock)]
